@@ -22,7 +22,6 @@ TRUSTED = [
 ]
 ASSUMES = ["service names distinct in the target package and RPC names distinct per service (protoc guarantees both per scope; "
            "two services with the same short name in different proto sub-packages are outside the model)",
-           "C15_fixup_covers: RPC names that agree up to letter case are equal (refuted without it: C15_fixup_covers_refuted)",
            "RPC names distinct after snake-casing (DESIGN section 9 no. 11) for the import oracle"]
 
 PACKAGES = ["google.example.library.v1", "google.cloud.widgets.v1beta1", "acme.storage.v2", "google.cloud.data.fleet.v1p1beta1",
@@ -30,7 +29,11 @@ PACKAGES = ["google.example.library.v1", "google.cloud.widgets.v1beta1", "acme.s
 RPC_POOL = ["GetBook", "ListBooks", "CreateBook", "DeleteBook", "Import", "Class", "Return", "None", "Async", "Await", "Lambda",
             "Print", "Match", "Global", "Yield", "Is", "In", "Del", "Pass", "Raise", "With", "Not", "_Hidden", "_Import",
             "GetIAMPolicy2", "Get2FACode", "ListV2Items", "HTTPPing", "RunX", "Do", "Delete_Book", "getLower", "Check2A",
-            "SyncABCs", "Export", "True", "Try", "Finally", "Type", "Exec"]
+            "SyncABCs", "Export", "True", "Try", "Finally", "Type", "Exec", "CreateChannel", "OperationsClient", "GrpcChannel",
+            "CreateChannel", "OperationsClient", "GrpcChannel", "Getbook"]
+# names that collide with members of the generated transports: the transport disambiguates them (create_channel_),
+# the client method and gapic_metadata.json do not
+TRANSPORT_UNSAFE = ["CreateChannel", "OperationsClient", "GrpcChannel"]
 FIELD_POOL = ["name", "parent", "class", "from", "type", "format", "any", "self", "cls", "filter", "page_size", "book",
               "update_mask", "import", "in", "id", "labels", "license", "max", "next", "request_id", "etag", "hash", "all"]
 NON_PP = [(".google.iam.v1.SetIamPolicyRequest", "google/iam/v1/iam_policy.proto"),
@@ -57,8 +60,10 @@ def meta_api(r, defect_case=False):
     for si, sname in enumerate(svc_names):
         f = files[si % nfiles]
         svc = f.service(sname, host="meta.example.com", scopes="https://www.googleapis.com/auth/cloud-platform")
-        names = r.sample(RPC_POOL, r.randint(1, 6))
-        if defect_case and si == 0:
+        names = list(dict.fromkeys(r.sample(RPC_POOL, r.randint(1, 6))))
+        if defect_case == "unsafe" and si == 0:
+            names = list(dict.fromkeys(TRANSPORT_UNSAFE + names))[:5]
+        elif defect_case and si == 0:
             names = ["GetBook", "Getbook"] + [n for n in names if n.lower() != "getbook"][:2]
         for ri, rn in enumerate(names):
             if r.random() < 0.12:
@@ -69,8 +74,12 @@ def meta_api(r, defect_case=False):
                 msg_i += 1
                 m = f.message(f"Req{msg_i}")
                 fns = r.sample(FIELD_POOL, r.randint(0, 6))
+                # declaration order is deliberately NOT field-number order (descending or shuffled numbers)
+                nums = list(range(1, len(fns) + 1))
+                if r.random() < 0.75:
+                    nums = nums[::-1] if r.random() < 0.4 else r.sample(nums, len(nums))
                 for k, fn in enumerate(fns):
-                    m.field(fn, k + 1, r.choice(["string", "int32", "bool", "bytes"]), required=r.random() < 0.4,
+                    m.field(fn, nums[k], r.choice(["string", "int32", "bool", "bytes"]), required=r.random() < 0.4,
                             repeated=r.random() < 0.15)
                 inp = m.fqn
             svc.rpc(rn, inp, resp.fqn, http=("post", f"/v1/{sname.lower()}/r{ri}:call"), body="*")
@@ -154,6 +163,27 @@ def describe(case):
             "add_iam": "add-iam-methods" in case["params"]}
 
 
+def extra_features(case, d):
+    """features the quantifier names explicitly: declaration order != field-number order, transport-unsafe rpc names"""
+    req = apigen.req_from_b64(case["request_b64"])
+    out = []
+    unordered = False
+    for fp in req.proto_file:
+        if fp.name in req.file_to_generate:
+            for m in fp.message_type:
+                nums = [f.number for f in m.field]
+                if nums != sorted(nums):
+                    unordered = True
+    if unordered:
+        out.append("request fields not in field-number order")
+    names = {x["name"] for s in d["svcs"] for x in s["rpcs"]}
+    if names & set(TRANSPORT_UNSAFE):
+        out.append("transport-unsafe rpc name")
+    if len({n.lower() for n in names}) < len(names):
+        out.append("rpc names differing only by case")
+    return out
+
+
 def svcs_term(d):
     def rpc(x):
         fs = coq.lst(f"mkF {coq.s(n)} {coq.b(q)}" for n, q in x["fields"])
@@ -217,6 +247,7 @@ def run_t2(ctx, cases):
             feats.append("internal-methods")
         if any(not x["pp"] for s in d["svcs"] for x in s["rpcs"]):
             feats.append("non-proto-plus-request")
+        feats += extra_features(c, d)
         ctx.case({"t2": c["tag"], "request": env.canon_hash(c)}, nontrivial=nr > 0, feature=feats)
         if "error" in o:
             ctx.oblige(f"T2 {c['tag']}: gapic builds the schema", False, o["detail"][-500:])
@@ -316,6 +347,7 @@ def run_e2e(ctx, cases, label="e2e"):
         rpc_names = [x["name"] for s in d["svcs"] for x in s["rpcs"]]
         ci_clash = len({n.lower() for n in rpc_names}) < len(set(rpc_names))
         feats = [f"e2e transport={'+'.join(d['transports'])}"] + (["e2e internal"] if c.get("yaml") else []) + (["e2e letter-case clash"] if ci_clash else [])
+        feats += ["e2e " + x for x in extra_features(c, d)]
         ctx.case({"e2e": env.canon_hash(case)}, nontrivial=bool(rpc_names), feature=feats)
         if res is None:
             ctx.violation(f"generation failed ({gen.error_kind(err)}): no gapic_metadata.json / fix-up script at all", case)
@@ -433,6 +465,17 @@ def run_e2e(ctx, cases, label="e2e"):
     return checks
 
 
+def load_corpus():
+    """corpus/C15/*.json: minimised cases that run first (witnesses of repaired defects: a regression is reported)."""
+    out = []
+    d = os.path.join(env.VERIF, "corpus", "C15")
+    for f in sorted(os.listdir(d)) if os.path.isdir(d) else []:
+        if f.endswith(".json"):
+            c = json.load(open(os.path.join(d, f)))["case"]
+            out.append({"request_b64": c["request_b64"], "params": c.get("params") or [], "yaml": c.get("yaml"), "tag": c.get("tag", f)})
+    return out
+
+
 def regen(ctx):
     U.write_case_gen()
     kw = U.interpreter_kwlist()
@@ -447,7 +490,7 @@ def regen(ctx):
     t1 = open(os.path.join(env.REPO, "gapic/templates/%namespace/%name_%version/gapic_metadata.json.j2")).read().strip()
     ctx.oblige("T0 gapic_metadata.json.j2 is exactly the call of api.gapic_metadata_json(opts)", t1 == "{{ api.gapic_metadata_json(opts) }}", t1[:200], "T0")
     t2 = open(os.path.join(env.REPO, "gapic/templates/scripts/fixup_%name_%version_keywords.py.j2")).read()
-    want = ["{% for method in all_methods|sort(attribute='name')|unique(attribute='name') %}",
+    want = ["{% for method in all_methods|sort(attribute='name')|unique(attribute='name', case_sensitive=True) %}",
             "'{{ method.name|snake_case }}': ({% for field in method.legacy_flattened_fields.values() %}'{{ field.name }}', {% endfor %}),",
             "{% for service in api.services.values() %}{% for method in service.methods.values() %}"]
     missing = [w for w in want if w not in t2]
@@ -463,16 +506,19 @@ def evaluate(ctx, tag, checks, kind):
 
 def run(ctx):
     n2 = ctx.n(40, 500)
-    cases = [c for c in (make_case("C15-t2", i) for i in range(n2)) if c]
+    corpus = load_corpus()
+    cases = corpus + [c for c in (make_case("C15-t2", i) for i in range(n2)) if c]
     cases += [c for c in (make_case("C15-t2-ci", i, True) for i in range(ctx.n(3, 20))) if c]
+    cases += [c for c in (make_case("C15-t2-unsafe", i, "unsafe") for i in range(ctx.n(3, 20))) if c]
     checks = run_t2(ctx, cases) + run_strings(ctx, ctx.n(150, 1500))
     failing, errors, nf = evaluate(ctx, "c15t2", checks, "T2")
     ctx.oblige(f"T2 model = gapic schema objects (gapic_metadata, client/method names, legacy_flattened_fields, snake/module names) "
                f"on {len(checks)} comparisons over {len(cases)} APIs", not failing and not errors and len(checks) > 0,
                "; ".join((failing + errors)[:8]))
     ne = ctx.n(10, 120)
-    e2e = [c for c in (make_case("C15-e2e", i) for i in range(ne)) if c]
+    e2e = corpus + [c for c in (make_case("C15-e2e", i) for i in range(ne)) if c]
     e2e += [c for c in (make_case("C15-e2e-ci", i, True) for i in range(ctx.n(1, 4))) if c]
+    e2e += [c for c in (make_case("C15-e2e-unsafe", i, "unsafe") for i in range(ctx.n(2, 8))) if c]
     checks = run_e2e(ctx, e2e)
     failing, errors, nf = evaluate(ctx, "c15t1", checks, "T1")
     ctx.oblige(f"T1 emitted gapic_metadata.json, METHOD_TO_PARAMS and emitted class/def names = model output "
